@@ -441,7 +441,7 @@ pub fn exec_spec(ctx: &mut Ctx, spec: &RunSpec, idx: u64) -> RunResult {
             let kind = spec.stored_faults.iter().rev().find(|f| matches!(&f.edit, Some(Edit::Repeat { .. }))).map(|f| erase_decimals(&f.why)).unwrap_or_default();
             match &ex.open {
                 Outcome::Ok(_) => vec!["amplified_input_opened".to_string()],
-                _ => vec![format!("amplified_input_refused:{}:{}", spec.file, crate::wb::clip(&kind, 90))],
+                _ => vec![format!("amplified_input_refused:{}", crate::wb::clip(&kind, 90))],
             }
         } else {
             vec![]
